@@ -120,7 +120,7 @@ pub fn run(ctx: &Ctx) -> i32 {
     if !strace {
         acc.inconclusive("strace not available");
     }
-    let n = ctx.tier.pick(250u64, 4000u64);
+    let n = ctx.tier.pick(250u64, 12000u64);
     let strace_every = ctx.tier.pick(2u64, 4u64);
     run_workload(ctx, &mut acc, "histories", n, |k, rng, acc| {
         let base = scratch_dir("c18");
